@@ -324,9 +324,11 @@ pub fn worker(idx: usize) {
                     if pairs && kinds.len() <= 14 {
                         second_sets.push((1, 24));
                     }
-                    if *k == Kind::Fsync && kinds.len() <= 14 {
+                    // ... and after a write that was cut short (a torn page, possibly a torn header slot)
+                    let torn_write = *k == Kind::Write && mname.starts_with("short-7") || *k == Kind::Write && mname.starts_with("short-half");
+                    if (*k == Kind::Fsync || torn_write) && kinds.len() <= 14 {
                         second_sets.push((0, 14));
-                        if !pairs {
+                        if !pairs && *k == Kind::Fsync {
                             second_sets.push((1, 14));
                         }
                     }
